@@ -62,7 +62,9 @@ def cases(rng, tier):
                 p = {"lens": lens, "kind": kind, "side": side, "uf": uf, "dta": dta, "dtb": dtb, "vseed": rng.randint(0, 999),
                      # the ragged operand(s) are sometimes the RESULT of an earlier, value-preserving operation (a ufunc, a selection
                      # of all rows, a same-dtype astype): a derived array must behave - and refuse - like a freshly built one
-                     "derived": rng.choice([None, None, "ufunc", "select", "astype"])}
+                     "derived": rng.choice([None, None, "ufunc", "select", "astype"]),
+                     # operand values: small, or rare (NaN, infinities, -0.0, 1e16 next to 1.0, dtype extremes) with repeats
+                     "vmode": "rare" if rng.random() < 0.3 else "small"}
                 if kind == "ragged_bad":
                     if n == 0:
                         continue
@@ -87,7 +89,7 @@ def cases(rng, tier):
 
 
 def key(p):
-    return engine.stable_hash([p["lens"], p["kind"], p["side"], p["uf"], p["dta"], p["dtb"], p.get("other"), p.get("ncol"), p.get("s"), p.get("derived")])
+    return engine.stable_hash([p["lens"], p["kind"], p["side"], p["uf"], p["dta"], p["dtb"], p.get("other"), p.get("ncol"), p.get("s"), p.get("derived"), p.get("vmode")])
 
 
 def nontrivial(p):
@@ -106,7 +108,8 @@ def distribution(ps):
 def _operands(p):
     rnd = random.Random(p["vseed"])
     n = sum(p["lens"])
-    a = gens.cell_values(p["dta"], n, rnd, mode="small")
+    mode = p.get("vmode", "small")
+    a = gens.cell_values(p["dta"], n, rnd, mode=mode)
     k = p["kind"]
     if k == "scalar":
         other = p["s"]
@@ -115,11 +118,11 @@ def _operands(p):
         if np.dtype(p["dtb"]).kind != "b":
             other = np.dtype(p["dtb"]).type(2)
     elif k == "column":
-        other = gens.cell_values(p["dtb"], len(p["lens"]), rnd, mode="small")
+        other = gens.cell_values(p["dtb"], len(p["lens"]), rnd, mode=mode)
     elif k == "column_bad":
         other = gens.cell_values(p["dtb"], p["ncol"], rnd, mode="small")
     elif k == "ragged":
-        other = gens.cell_values(p["dtb"], n, rnd, mode="small")
+        other = gens.cell_values(p["dtb"], n, rnd, mode=mode)
     elif k == "ragged_bad":
         other = gens.cell_values(p["dtb"], sum(p["other"]), rnd, mode="small")
     else:
